@@ -144,6 +144,13 @@ def endpoint_module(sb, ep):
 
 def req_summary(r):
     """JSON-able canonical summary of a captured request (for differentials)."""
-    return {"method": r["method"], "path": r["path"], "query": sorted(r["query"]),
-            "headers": sorted((k, v) for k, v in r["headers"] if k not in ("host", "accept", "accept-encoding", "connection", "user-agent", "content-length")),
-            "content": r["content"].decode("latin-1")}
+    headers = sorted((k, v) for k, v in r["headers"] if k not in ("host", "accept", "accept-encoding", "connection", "user-agent", "content-length"))
+    content = r["content"].decode("latin-1")
+    # httpx draws a random multipart boundary per request: name it, so that two runs of one call compare equal
+    import re
+    for k, v in headers:
+        m = re.search(r"boundary=([0-9a-f]{16,})", v) if k == "content-type" else None
+        if m:
+            headers = [(k2, v2.replace(m.group(1), "BOUNDARY") if k2 == "content-type" else v2) for k2, v2 in headers]
+            content = content.replace(m.group(1), "BOUNDARY")
+    return {"method": r["method"], "path": r["path"], "query": sorted(r["query"]), "headers": headers, "content": content}
